@@ -180,6 +180,8 @@ def explicit_gates(spec: dict) -> list:
     if t == "chain" and spec["ccase"]["kind"] == "hdd":
         for typ in ("Expanding", "compressed", "Raw", ""):
             g.append(["hdd_image_type", typ, "unsupported Parallels image type"])
+        for which in ("base", "non_base"):
+            g.append(["hdd_image_type_one", ["Expanding", which], "unsupported Parallels image type on one image of the chain"])
         g.append(["hdd_no_descriptor", 0, "missing DiskDescriptor.xml"])
     if t == "chain" and spec["ccase"]["kind"] == "vhdx":
         g.append(["vhdx_drop_region", "bat", "missing BAT region"])
@@ -454,6 +456,40 @@ def _f_hdd_shot_rho(world, b, spec, shape):
 def _f_hdd_image_type(world, b, spec, typ):
     p = _find(world, "DiskDescriptor.xml")
     _rewrite_text(world, p, lambda t: t.replace("<Type>Compressed</Type>", f"<Type>{typ}</Type>").replace("<Type>Plain</Type>", f"<Type>{typ}</Type>"))
+
+
+def _f_hdd_image_type_one(world, b, spec, arg):
+    """Only one image of the chain gets the unsupported type: the base (arg 'base') or the one in the middle / top of the list
+    (a chain is only as supported as its least supported member)."""
+    import re
+
+    typ, which = arg
+    p = _find(world, "DiskDescriptor.xml")
+
+    def edit(t):
+        ms = list(re.finditer(r"<Type>(Compressed|Plain)</Type>", t))
+        if len(ms) < 2:
+            return t
+        # images of one storage are listed in some order; pick by the GUID of the base snapshot (ParentGUID all zeros)
+        shots = re.findall(r"<Shot>\s*<GUID>(\{[^}]+\})</GUID>\s*<ParentGUID>(\{[^}]+\})</ParentGUID>", t)
+        base = [g for g, pg in shots if pg.strip("{}").replace("-", "").strip("0") == ""]
+        target = None
+        if which == "base" and base:
+            for m in re.finditer(r"<Image>\s*<GUID>(\{[^}]+\})</GUID>\s*<Type>(Compressed|Plain)</Type>", t):
+                if m.group(1) == base[0]:
+                    target = m
+                    break
+        elif which == "non_base" and base:
+            for m in re.finditer(r"<Image>\s*<GUID>(\{[^}]+\})</GUID>\s*<Type>(Compressed|Plain)</Type>", t):
+                if m.group(1) != base[0]:
+                    target = m
+                    break
+        if target is None:
+            return t
+        a, e = target.span(2)
+        return t[:a] + typ + t[e:]
+
+    _rewrite_text(world, p, edit)
 
 
 def _f_hdd_no_descriptor(world, b, spec, _):
